@@ -5,7 +5,8 @@ import os
 import verif
 
 RULE = ("sizes n drawn from every row of the cyclic group table (both ends of each row's interval, powers of two "
-        "and neighbours, uniform per row, uniform in [1,2^32]) plus the reject boundary; seeds from one PRNG; "
+        "and neighbours, uniform per row, uniform in [1,2^32]) plus the reject boundary, plus complete bitmap walks of the "
+        "sparse sizes just above each table prime up to 2^21 (quick) / 2^25 (thorough); seeds from one PRNG; "
         "non-trivial = accepted size with at least 2 outputs observed; distinct by (n, seed)")
 
 CODES = {1: "error kind differs from the model", 2: "group differs from sort.Search on the table",
@@ -152,7 +153,19 @@ def run(ctx):
         why = spec_on_impl(o)
         if why:
             report(ctx, o, why)
-    if not quick and os.path.exists(os.path.join(verif.ROOT, "harness", "bin", "c04")):
+    if rows:
+        # sizes just above a table prime (about half of the next group is out of range: long runs of skipped
+        # elements), walked completely and judged by the property on the implementation alone
+        ok, _ = ctx.harness_run("c04", ["-out", "sparse.jsonl", "-sparse", "%d,%d" % ((1 << 21) + 64 if quick else (1 << 25) + 64, 2 if quick else 3)],
+                                timeout=1500)
+        sp = ctx.read_jsonl(os.path.join(ctx.work, "sparse.jsonl")) if ok else []
+        for o in sp:
+            ctx.count(o["class"], (o["n"], o["seed"]), nontrivial=o["n"] >= 2)
+            why = spec_on_impl(o)
+            if why:
+                report(ctx, o, why)
+        ctx.info.append("%d complete walks of sparse sizes (n just above a table prime) judged by the property" % len(sp))
+    if not quick and os.path.exists(os.path.join(verif.HBIN, "c04")):
         # exhaustive over every n <= 2048 under 8 seeds, and one complete walk of a 2^24 range (bitmap check)
         ok, _ = ctx.harness_run("c04", ["-out", "sweep.jsonl", "-sweep", "2048,8"], timeout=1200)
         extra = ctx.read_jsonl(os.path.join(ctx.work, "sweep.jsonl")) if ok else []
@@ -183,7 +196,7 @@ def run(ctx):
     if info100:
         ctx.info.append("%d cases: the code spends its random draws differently from the model (not an alarm: "
                         "C04_any_generator covers any generator and start)" % info100)
-    if ctx.broken and not ctx.findings and "c04" and os.path.exists(os.path.join(verif.ROOT, "harness", "bin", "c04")):
+    if ctx.broken and not ctx.findings and "c04" and os.path.exists(os.path.join(verif.HBIN, "c04")):
         for o, why in search_failing(ctx, (1 << 30) + 64 if quick else 1 << 33)[:3]:
             report(ctx, o, why)
     return ctx.finish(rule=RULE)
